@@ -148,6 +148,10 @@ class _BaseLayout(MaildirLayout[_MaildirT], metaclass=ABCMeta):
     #: component made from it would be one that the layout itself uses.
     _reserved: ClassVar[frozenset[str]] = frozenset()
 
+    #: The character that a part of a mailbox name cannot contain, because the
+    #: layout itself joins the parts with it on disk.
+    _separator: ClassVar[str | None] = None
+
     def __init__(self, path: str, maildir_type: type[_MaildirT]) -> None:
         super().__init__()
         self._path = path
@@ -169,7 +173,9 @@ class _BaseLayout(MaildirLayout[_MaildirT], metaclass=ABCMeta):
         # path itself in the 'fs' layout.
         if not parts[0] and not any(parts[1:2]) \
                 or any(part in ('.', '..') or '\0' in part or os.sep in part
-                       or part in cls._reserved for part in parts):
+                       or part in cls._reserved
+                       or (cls._separator is not None
+                           and cls._separator in part) for part in parts):
             raise NotSupportedError('Invalid mailbox name.')
         return parts
 
@@ -264,6 +270,8 @@ class DefaultLayout(_BaseLayout[_MaildirT]):
         maildir_type: The :class:`~mailbox.Maildir` class override.
 
     """
+
+    _separator = '.'
 
     def _get_path(self, parts: _Parts) -> str:
         return os.path.join(self._path, self._get_subdir(parts))
